@@ -78,6 +78,13 @@ def evalD (st : St) (op : String) (a : List Float) : St × String :=
       match st.smart with
       | some s0 => let s := Smart.init s0 ax ay az; outD { st with smart := some s } (.vals (m3l s.r))
       | none => outD st .bad
+  | "smart.ctorv", [ax, ay, az] =>          -- SmartRotation3D(const Eigen::Vector3d &): SmartRotation3D.cpp delegates to init
+      let s := Smart.ofAngles ax ay az
+      outD { st with smart := some s } (.vals (m3l s.r))
+  | "smart.initv", [ax, ay, az] =>          -- init(const Eigen::Vector3d &) = init(angles[0], angles[1], angles[2])
+      match st.smart with
+      | some s0 => let s := Smart.init s0 ax ay az; outD { st with smart := some s } (.vals (m3l s.r))
+      | none => outD st .bad
   | _, _ => outD st (evalOp QArch.sseDouble op a)
 
 def step (st : St) (toks : List String) : St × String :=
